@@ -720,3 +720,232 @@ Proof. intros H. unfold reset_recipes. cbn. apply over_children_fields, H. Qed.
 Lemma reset_inds_err s : err s = true -> err (reset_inds s) = true.
 Proof. intros H. unfold reset_inds. cbn. apply over_children_fields, H. Qed.
 End InvA.
+
+(* unique (first occurrences) *)
+Lemma uq_acc_in x l : forall seen, In x (unique_acc seen l) <-> In x l /\ ~ In x seen.
+Proof.
+  induction l as [|y l IH]; intros seen; cbn [unique_acc].
+  - cbn [In]. tauto.
+  - destruct (memb y seen) eqn:E.
+    + apply memb_In in E. rewrite IH. cbn [In]. split; [tauto|]. intros [[->|H] Hn]; tauto.
+    + apply memb_false in E. cbn [In]. rewrite IH. cbn [In]. destruct (Nat.eq_dec y x) as [->|Hne]; tauto.
+Qed.
+Lemma uq_acc_nodup l : forall seen, NoDup (unique_acc seen l).
+Proof.
+  induction l as [|y l IH]; intros seen; cbn [unique_acc]; [constructor|].
+  destruct (memb y seen) eqn:E; [apply IH|]. constructor; [|apply IH]. rewrite uq_acc_in. cbn [In]. tauto.
+Qed.
+Lemma in_unique x l : In x (unique l) <-> In x l.
+Proof. unfold unique. rewrite uq_acc_in. cbn [In]. tauto. Qed.
+Lemma NoDup_unique l : NoDup (unique l).
+Proof. apply uq_acc_nodup. Qed.
+
+(* ======================================================================== *)
+(* Part 4 : get_inds and the recipe getters (need the cost invariant InvC)   *)
+(* index-order getters: recipes untouched, a cached order is never replaced *)
+Definition Ri (LV : node -> legs -> Prop) (nd : node) (i i' : ninfo) : Prop :=
+  (i_eq i' = i_eq i /\ i_can_dot i' = i_can_dot i /\ i_tdaxes i' = i_tdaxes i /\ i_tdperm i' = i_tdperm i) /\
+  (forall v, i_inds i = Some v -> i_inds i' = Some v) /\ legs_step LV nd (i_legs i) (i_legs i').
+Lemma Ri_refl LV q i : Ri LV q i i.
+Proof. split; [auto|]. split; [auto|apply legs_step_refl]. Qed.
+Lemma Ri_trans LV q i j k : Ri LV q i j -> Ri LV q j k -> Ri LV q i k.
+Proof.
+  intros ((A1&A2&A3&A4)&A5&A6) ((B1&B2&B3&B4)&B5&B6). split; [repeat split; congruence|].
+  split; [auto|eapply legs_step_trans; eassumption].
+Qed.
+Lemma Rc_Ri LV q i j : Rc LV q i j -> Ri LV q i j.
+Proof. intros ((A0&A1&A2&A3&A4)&A5). split; [auto|]. split; [intros v Hv; congruence|exact A5]. Qed.
+
+Section InvA2.
+Variable n : net.
+Notation N := (NN n).
+Hypothesis HN : 2 <= N.
+Hypothesis Hout : NoDup (output n).
+
+Definition irl (s s' : tstate) : Prop := srel (Ri (fresh_ok n (sliced s))) s s'.
+Lemma irl_refl s : irl s s.
+Proof. apply srel_refl. intros; apply Ri_refl. Qed.
+Lemma irl_trans s1 s2 s3 : irl s1 s2 -> irl s2 s3 -> irl s1 s3.
+Proof.
+  unfold irl. intros H1 H2. eapply srel_trans; [intros q i j k; apply Ri_trans|exact H1|].
+  destruct H1 as (_&_&E&_). rewrite <- E. exact H2.
+Qed.
+Lemma crel_irl s s' : crel n s s' -> irl s s'.
+Proof. apply srel_weaken. intros q i j. apply Rc_Ri. Qed.
+Lemma irl_err s s' : irl s s' -> err s' = false -> err s = false.
+Proof. intros (_&_&_&E) H. destruct (err s); [rewrite E in H by reflexivity; discriminate|reflexivity]. Qed.
+Lemma irl_inds s s' nd v : irl s s' -> rd i_inds s nd = Some v -> rd i_inds s' nd = Some v.
+Proof.
+  intros (A1&_) H. destruct (rd_Some _ _ _ _ H) as (i & Hi & Hv).
+  destruct (irel_nget _ _ _ A1 nd i Hi) as (i' & Hi' & _ & Hm & _). unfold rd. rewrite Hi'. apply Hm, Hv.
+Qed.
+Lemma irl_legs s s' nd v : irl s s' -> rd i_legs s nd = Some v -> rd i_legs s' nd = Some v.
+Proof.
+  intros (A1&_) H. destruct (rd_Some _ _ _ _ H) as (i & Hi & Hv).
+  destruct (irel_nget _ _ _ A1 nd i Hi) as (i' & Hi' & _ & _ & Hs). unfold rd. rewrite Hi'.
+  unfold legs_step in Hs. rewrite Hv in Hs. exact Hs.
+Qed.
+Lemma irl_entry s s' nd : irl s s' -> nget nd (info s') <> None -> nget nd (info s) <> None.
+Proof.
+  intros (A1&_) H. destruct (nget nd (info s')) as [i'|] eqn:E; [|congruence].
+  destruct (irel_nget_rev _ _ _ A1 nd i' E) as (i & Hi & _). congruence.
+Qed.
+
+Lemma InvC_chok s : InvC n s -> chok (children s).
+Proof.
+  intros [((ND&Hc)&_) _] p l r Hin. destruct (Hc p l r (In_nget _ _ _ ND Hin)) as (Gl&Gr&HR&HP).
+  split; [apply Gl|]. split; [apply Gr|]. split; [apply HR|exact HP].
+Qed.
+Lemma spec_split sl l r j : inrange n (l ++ r) -> 0 < spec_count n sl (l ++ r) j ->
+  0 < spec_count n sl l j \/ 0 < spec_count n sl r j.
+Proof.
+  intros HR. unfold spec_count. rewrite cnt_app.
+  destruct (Nat.ltb_spec (cnt n sl l j + cnt n sl r j) (appear n j)); [|lia].
+  destruct (Nat.ltb_spec (cnt n sl l j) (appear n j)); destruct (Nat.ltb_spec (cnt n sl r j) (appear n j)); lia.
+Qed.
+Lemma InvC_legs_keys s nd i lg : InvC n s -> nget nd (info s) = Some i -> i_legs i = Some lg -> length nd <> N ->
+  NoDup (lkeys lg) /\ forall j, In j (lkeys lg) <-> 0 < spec_count n (sliced s) nd j.
+Proof.
+  intros [(_&_&H3&_) _] Hi Hl HlN. destruct (H3 nd i Hi) as [_ (A&_)]. apply A in Hl.
+  apply legs_ok_nonroot in Hl; [|exact HlN]. destruct Hl as [W G]. split; [apply W|].
+  intros j. rewrite (wfl_key_pos j lg W), G. tauto.
+Qed.
+Lemma upd_err nd f s : err (upd_info nd f s) = false -> err s = false /\ nget nd (info s) <> None.
+Proof. unfold upd_info. destruct (nget nd (info s)); cbn; [intros H; split; [exact H|discriminate]|discriminate]. Qed.
+Lemma PA_upd nd f s : PA n s ->
+  (forall i, nget nd (info s) = Some i -> entA n (fresh_ok n (sliced s)) false nd i -> entA n (fresh_ok n (sliced s)) false nd (f i)) ->
+  PA n (upd_info nd f s).
+Proof.
+  intros HP Hf. unfold PA. destruct (upd_info_fields nd f s) as (_&E&_). rewrite E. apply PAX_upd; [exact HP|exact Hf].
+Qed.
+Lemma PAe_upd_keep nd f s : PAe n s -> (forall i, i_legs (f i) = i_legs i /\ i_inds (f i) = i_inds i) -> PAe n (upd_info nd f s).
+Proof.
+  intros HP Hf He. destruct (upd_err _ _ _ He) as [He0 _]. apply PA_upd; [apply HP, He0|].
+  intros i _ [E1 E2]. destruct (Hf i) as [R1 R2]. split; [rewrite R1; exact E1|]. intros HX v. rewrite R1, R2. apply E2, HX.
+Qed.
+Lemma irl_upd nd f s : (forall i, nget nd (info s) = Some i -> Ri (fresh_ok n (sliced s)) nd i (f i)) -> irl s (upd_info nd f s).
+Proof. intros H. apply srel_upd; [intros; apply Ri_refl|exact H]. Qed.
+Lemma rd_crel_inds s s' nd : crel n s s' -> rd i_inds s' nd = rd i_inds s nd.
+Proof. intros H. apply (srel_rd _ i_inds s s' nd H). intros q i j ((E&_)&_). exact E. Qed.
+
+(* bounded version: a cached order may only appear on the nodes in P *)
+Definition RiB (LV : node -> legs -> Prop) (P : node -> bool) (nd : node) (i i' : ninfo) : Prop :=
+  (i_eq i' = i_eq i /\ i_can_dot i' = i_can_dot i /\ i_tdaxes i' = i_tdaxes i /\ i_tdperm i' = i_tdperm i) /\
+  (if P nd then forall v, i_inds i = Some v -> i_inds i' = Some v else i_inds i' = i_inds i) /\
+  legs_step LV nd (i_legs i) (i_legs i').
+Lemma RiB_refl LV P q i : RiB LV P q i i.
+Proof. split; [auto|]. split; [destruct (P q); auto|apply legs_step_refl]. Qed.
+Lemma RiB_trans LV P q i j k : RiB LV P q i j -> RiB LV P q j k -> RiB LV P q i k.
+Proof.
+  intros ((A1&A2&A3&A4)&A5&A6) ((B1&B2&B3&B4)&B5&B6). split; [repeat split; congruence|].
+  split; [destruct (P q); [auto|congruence]|eapply legs_step_trans; eassumption].
+Qed.
+Lemma RiB_mono LV (P P' : node -> bool) q i j : (P q = true -> P' q = true) -> RiB LV P q i j -> RiB LV P' q i j.
+Proof.
+  intros HPP (A1&A2&A3). split; [exact A1|]. split; [|exact A3]. destruct (P q) eqn:E.
+  - rewrite (HPP eq_refl). exact A2.
+  - destruct (P' q); [intros v Hv; congruence|exact A2].
+Qed.
+Lemma RiB_Ri LV P q i j : RiB LV P q i j -> Ri LV q i j.
+Proof. intros (A1&A2&A3). split; [exact A1|]. split; [|exact A3]. destruct (P q); [exact A2|intros v Hv; congruence]. Qed.
+Lemma Rc_RiB LV P q i j : Rc LV q i j -> RiB LV P q i j.
+Proof. intros ((A0&A1&A2&A3&A4)&A5). split; [auto|]. split; [destruct (P q); [intros v Hv; congruence|exact A0]|exact A5]. Qed.
+Definition irlB (P : node -> bool) (s s' : tstate) : Prop := srel (RiB (fresh_ok n (sliced s)) P) s s'.
+Lemma irlB_trans P s1 s2 s3 : irlB P s1 s2 -> irlB P s2 s3 -> irlB P s1 s3.
+Proof.
+  unfold irlB. intros H1 H2. eapply srel_trans; [intros q i j k; apply RiB_trans|exact H1|].
+  destruct H1 as (_&_&E&_). rewrite <- E. exact H2.
+Qed.
+Lemma irlB_mono (P P' : node -> bool) s s' : (forall q, P q = true -> P' q = true) -> irlB P s s' -> irlB P' s s'.
+Proof. intros H. apply srel_weaken. intros q i j. apply RiB_mono, H. Qed.
+Lemma irlB_irl P s s' : irlB P s s' -> irl s s'.
+Proof. apply srel_weaken. intros q i j. apply RiB_Ri. Qed.
+Lemma crel_irlB P s s' : crel n s s' -> irlB P s s'.
+Proof. apply srel_weaken. intros q i j. apply Rc_RiB. Qed.
+Lemma irlB_keep_inds P s s' nd : irlB P s s' -> P nd = false -> rd i_inds s' nd = rd i_inds s nd.
+Proof.
+  intros (A1&_) HP. unfold rd. destruct (nget nd (info s)) as [i|] eqn:E.
+  - destruct (irel_nget _ _ _ A1 nd i E) as (i' & E' & _ & Hr & _). rewrite E'. rewrite HP in Hr. exact Hr.
+  - destruct (nget nd (info s')) as [i'|] eqn:E'; [|reflexivity].
+    destruct (irel_nget_rev _ _ _ A1 nd i' E') as (i & Ei & _). congruence.
+Qed.
+
+Lemma get_inds_A f : forall s nd, InvC n s -> PAe n s -> good_node n nd ->
+  PAe n (fst (get_inds n f s nd)) /\ irlB (lenle (length nd)) s (fst (get_inds n f s nd)) /\
+  (err (fst (get_inds n f s nd)) = false -> rd i_inds (fst (get_inds n f s nd)) nd = Some (snd (get_inds n f s nd))).
+Proof.
+  induction f as [|f IH]; intros s nd HI HP HG.
+  { cbn [get_inds fst snd]. split; [intros He; discriminate|]. split; [apply srel_fields; cbn; auto; intros; apply RiB_refl|intros He; discriminate]. }
+  rewrite get_inds_S. destruct (rd i_inds s nd) as [v0|] eqn:Er.
+  { cbn [fst snd]. split; [exact HP|]. split; [apply srel_refl; intros; apply RiB_refl|intros _; exact Er]. }
+  pose proof (InvC_chok s HI) as Hc. pose proof (g_legs_crel n HN s nd Hc) as H1.
+  pose proof (inv_g_legs n HN Hout s nd HI HG) as I1. pose proof (g_legs_cached n HN s nd) as C1.
+  destruct (g_legs n s nd) as [s1 lg]. cbn [fst snd] in H1, I1, C1.
+  pose proof (PAe_crel n s s1 HP H1) as P1.
+  assert (Er1 : rd i_inds s1 nd = None) by (rewrite (rd_crel_inds s s1 nd H1); exact Er).
+  assert (Esl1 : sliced s1 = sliced s) by apply H1.
+  assert (HPnd : lenle (length nd) nd = true) by (unfold lenle; apply Nat.leb_refl).
+  assert (Hfill : forall s3 v, irlB (lenle (length nd)) s1 s3 -> rd i_inds s3 nd = None ->
+            irlB (lenle (length nd)) s (upd_info nd (w_inds (Some v)) s3)).
+  { intros s3 v R13 Er3. eapply irlB_trans; [apply crel_irlB, H1|]. eapply irlB_trans; [exact R13|].
+    apply srel_upd; [intros; apply RiB_refl|]. intros i Hi. split; [cbn; auto|]. split; [|apply legs_step_refl].
+    rewrite HPnd. intros v' Hv'. rewrite (rd_None_get i_inds s3 nd i Er3 Hi) in Hv'. discriminate. }
+  destruct (Nat.eqb (length nd) 1 || Nat.eqb (length nd) N) eqn:Elr.
+  - cbn [fst snd]. split; [|split; [apply Hfill; [apply srel_refl; intros; apply RiB_refl|exact Er1]|]].
+    + intros He. destruct (upd_err _ _ _ He) as [He1 Hk]. destruct C1 as [C1|C1]; [contradiction|].
+      apply PA_upd; [apply P1, He1|]. intros i Hi [E1 E2]. split; [exact E1|]. intros _ v Hv. cbn in Hv. injection Hv as <-.
+      exists lg. split; [|unfold enum_ok, is_lr; rewrite Elr; reflexivity]. unfold rd in C1. rewrite Hi in C1. exact C1.
+    + intros He. destruct (upd_err _ _ _ He) as [_ Hk]. destruct (nget nd (info s1)) as [i1|] eqn:Ei1; [|congruence].
+      rewrite (rd_upd_same i_inds nd _ s1 i1 Ei1). reflexivity.
+  - destruct (nget nd (children s1)) as [[l r]|] eqn:Ech.
+    2:{ cbn [fst snd]. split; [intros He; discriminate|]. split; [|intros He; discriminate].
+        eapply irlB_trans; [apply crel_irlB, H1|]. apply srel_fields; cbn; auto. intros; apply RiB_refl. }
+    destruct (entry_good n s1 nd l r I1 Ech) as (_ & Gl & Gr).
+    destruct (chok_dec n HN _ _ _ _ (InvC_chok s1 I1) Ech) as [Ll Lr].
+    destruct (IH s1 l I1 P1 Gl) as (P2 & R2 & C2). pose proof (inv_get_inds n HN Hout f s1 l I1 Gl) as I2.
+    destruct (get_inds n f s1 l) as [s2 li]. cbn [fst snd] in P2, R2, C2, I2.
+    destruct (IH s2 r I2 P2 Gr) as (P3 & R3 & C3). pose proof (inv_get_inds n HN Hout f s2 r I2 Gr) as I3.
+    destruct (get_inds n f s2 r) as [s3 ri]. cbn [fst snd] in P3, R3, C3, I3. cbn [fst snd].
+    set (v := unique (filter (fun j => lmem j lg) (li ++ ri))).
+    assert (R13 : irlB (lenlt (length nd)) s1 s3).
+    { eapply irlB_trans; (eapply irlB_mono; [|eassumption]); intros q; unfold lenle, lenlt; intros H; apply Nat.leb_le in H; apply Nat.ltb_lt; lia. }
+    assert (Er3 : rd i_inds s3 nd = None).
+    { rewrite (irlB_keep_inds _ s1 s3 nd R13); [exact Er1|]. unfold lenlt. apply Nat.ltb_irrefl. }
+    assert (R13' : irlB (lenle (length nd)) s1 s3).
+    { eapply irlB_mono; [|exact R13]. intros q; unfold lenle, lenlt; intros H; apply Nat.ltb_lt in H; apply Nat.leb_le; lia. }
+    split; [|split; [apply Hfill; assumption|]].
+    + intros He. destruct (upd_err _ _ _ He) as [He3 Hk3].
+      pose proof (irl_err _ _ (irlB_irl _ _ _ R3) He3) as He2.
+      pose proof (P3 He3) as PA3. specialize (C2 He2). specialize (C3 He3).
+      pose proof (irl_inds _ _ l li (irlB_irl _ _ _ R3) C2) as Cl3.
+      assert (Hk1 : nget nd (info s1) <> None) by (apply (irl_entry s1 s3 nd (irlB_irl _ _ _ R13) Hk3)).
+      destruct C1 as [C1|C1]; [contradiction|].
+      pose proof (irl_legs _ _ nd lg (irlB_irl _ _ _ R13) C1) as Cg3.
+      assert (Esl3 : sliced s3 = sliced s1) by apply R13.
+      assert (Ech3 : children s3 = children s1) by apply R13.
+      apply PA_upd; [exact PA3|]. intros i Hi [E1 E2]. split; [exact E1|]. intros _ v' Hv'. cbn in Hv'. injection Hv' as <-.
+      exists lg. split; [unfold rd in Cg3; rewrite Hi in Cg3; exact Cg3|].
+      unfold enum_ok, is_lr. rewrite Elr. split; [apply NoDup_unique|].
+      intros j. unfold v. rewrite in_unique, filter_In. split.
+      * intros [_ Hm]. apply lmem_in_keys, Hm.
+      * intros Hj. split; [|apply lmem_in_keys, Hj].
+        apply orb_false_iff in Elr. destruct Elr as [_ ElN]. apply Nat.eqb_neq in ElN.
+        unfold rd in Cg3. rewrite Hi in Cg3.
+        destruct (InvC_legs_keys s3 nd i lg I3 Hi Cg3 ElN) as [_ Hkeys]. apply Hkeys in Hj.
+        assert (Hch3 : nget nd (children s3) = Some (l, r)) by (rewrite Ech3; exact Ech).
+        assert (I3' := I3). destruct I3' as [((NDc&Hcok)&_) _]. destruct (Hcok nd l r Hch3) as (_&_&HR&HPm).
+        rewrite (spec_count_perm n _ nd (l ++ r) j HPm) in Hj.
+        pose proof (good_len n HN nd HG) as Lnd.
+        assert (Hside : forall c ci, good_node n c -> length c < length nd -> rd i_inds s3 c = Some ci ->
+                   0 < spec_count n (sliced s3) c j -> In j ci).
+        { intros c ci Gc Lc Hci Hpos. destruct (rd_Some _ _ _ _ Hci) as (ic & Hic & Hvc).
+          destruct (PA3 c ic Hic) as [_ Q2]. destruct (Q2 eq_refl ci Hvc) as (lgc & Elc & Hen).
+          apply (enum_in n c ci lgc Hen).
+          destruct (InvC_legs_keys s3 c ic lgc I3 Hic Elc) as [_ Hk]; [lia|]. apply Hk, Hpos. }
+        apply in_or_app. destruct (spec_split _ l r j HR Hj) as [Hl|Hr].
+        -- left. apply (Hside l li Gl Ll Cl3 Hl).
+        -- right. apply (Hside r ri Gr Lr C3 Hr).
+    + intros He. destruct (upd_err _ _ _ He) as [_ Hk]. destruct (nget nd (info s3)) as [i3|] eqn:Ei3; [|congruence].
+      rewrite (rd_upd_same i_inds nd _ s3 i3 Ei3). reflexivity.
+Qed.
+End InvA2.
